@@ -82,7 +82,7 @@ FirstDiff(a, b) ==
 TVerdict ==
     [gid |-> gid,
      dL |-> FirstDiff(outL, Given[gid].obsL), dB |-> FirstDiff(outB, Given[gid].obsB),
-     nL |-> Len(outL), gta |-> GreedyTailAligned, align |-> lay[root].align, kind |-> lay[root].kind,
+     nL |-> Len(outL), outL |-> outL, outB |-> outB, gta |-> GreedyTailAligned, align |-> lay[root].align, kind |-> lay[root].kind,
      size |-> lay[root].size]
 TDump == phase = "done" => PrintT("TV " \o ToJson(TVerdict))
 =============================================================================
